@@ -356,6 +356,19 @@ def generate(tier):
     # named_field at enum level, flag-only forms where a value is needed
     bad('bad-position', 'en|type|named_field', req(EN, [], ['Debug(named_field = true)']), req(EN, ['Debug']))
     bad('bad-position', 'en|type|named_field(false)', req(EN, [], ['Debug(named_field(false))']), req(EN, ['Debug']))
+    # nothing below a type-level Default expression
+    for sk, sh, e in (('sn', SN, 'Ty { f0: 1, f1: 2, f2: 3 }'), ('st', ST, 'Ty(1, 2, 3)'), ('en', EN, 'Ty::V0(1, 2, 3)'), ('un', UN, 'Ty { f0: 1 }')):
+        for m in ('Default = 1', 'Default(expression = 2)'):
+            for pos in (sh.positions()[0], sh.positions()[-1]):
+                bad('bad-position', '%s|field-under-type-expression|%s|%s' % (sk, pos, m), K.render(sh, K.Config('', ['Default(expression = %s)' % e], {}, {pos: [m]})),
+                    K.render(sh, K.Config('', ['Default(expression = %s)' % e])))
+        if sh.kind == 'enum':
+            bad('bad-position', 'en|variant-marker-under-type-expression', K.render(sh, K.Config('', ['Default(expression = %s)' % e], {0: ['Default']})), K.render(sh, K.Config('', ['Default(expression = %s)' % e])))
+        if sh.kind == 'union':
+            bad('bad-position', 'un|field-marker-under-type-expression', K.render(sh, K.Config('', ['Default(expression = %s)' % e], {}, {(0, 0): ['Default']})), K.render(sh, K.Config('', ['Default(expression = %s)' % e])))
+    # field attributes on a variant that is not the default one
+    for m in ('Default = 1', 'Default(expression = 2)'):
+        bad('bad-position', 'en|field-of-non-default-variant|%s' % m, K.render(EN, K.Config('', ['Default'], {0: ['Default']}, {(1, 1): [m]})), K.render(EN, K.Config('', ['Default'], {0: ['Default']}, {(0, 1): [m]})))
     # 7. unions ------------------------------------------------------------------------------------------------
     for sh, sk in ((UN, 'un3'), (U1, 'un1')):
         for t in ('Debug', 'PartialEq', 'Hash'):
